@@ -890,6 +890,42 @@ class KeywordSearches:
 
 
     @staticmethod
+    def _group_by_value(
+        seen_values: Dict[Any, List[NodeCoords]], eval_val: Any,
+        wrapped_ele: NodeCoords, keyword: PathSearchKeywords,
+        yaml_path: YAMLPath
+    ) -> None:
+        """
+        Add a node to the group of nodes which share its value.
+
+        Parameters:
+        1. seen_values (Dict[Any, List[NodeCoords]]) The groups so far, by
+           value
+        2. eval_val (Any) The value to group by
+        3. wrapped_ele (NodeCoords) The node having that value
+        4. keyword (PathSearchKeywords) The Search Keyword being evaluated
+        5. yaml_path (YAMLPath) YAML Path begetting this operation
+
+        Returns:  N/A
+
+        Raises:
+        - `YAMLPathException` when the value is a Hash, Array, or Set; such
+          complex values cannot be grouped.
+        """
+        try:
+            if eval_val in seen_values:
+                seen_values[eval_val].append(wrapped_ele)
+            else:
+                seen_values[eval_val] = [wrapped_ele]
+        except TypeError as ex:
+            raise YAMLPathException(
+                f"The {keyword}([NAME]) Search Keyword can compare only"
+                " scalar values to one another; found a complex"
+                f" {type(eval_val).__name__} value in YAML Path",
+                str(yaml_path)) from ex
+
+
+    @staticmethod
     # pylint: disable=locally-disabled,too-many-locals,too-many-branches,too-many-statements
     def distinct(
         data: Any, invert: bool, parameters: List[str], yaml_path: YAMLPath,
@@ -963,10 +999,9 @@ class KeywordSearches:
                     if isinstance(raw_ele, NodeCoords) else raw_ele)
                 if eval_ele is not None and scan_node in eval_ele:
                     eval_val = eval_ele[scan_node]
-                    if eval_val in seen_values:
-                        seen_values[eval_val].append(wrapped_ele)
-                    else:
-                        seen_values[eval_val] = [wrapped_ele]
+                    KeywordSearches._group_by_value(
+                        seen_values, eval_val, wrapped_ele,
+                        PathSearchKeywords.DISTINCT, yaml_path)
 
         elif isinstance(data, dict):
             # A named child node is mandatory
@@ -987,10 +1022,9 @@ class KeywordSearches:
                             val, data, key, next_path, next_ancestry,
                             relay_segment)
                         eval_val = val[scan_node]
-                        if eval_val in seen_values:
-                            seen_values[eval_val].append(wrapped_ele)
-                        else:
-                            seen_values[eval_val] = [wrapped_ele]
+                        KeywordSearches._group_by_value(
+                            seen_values, eval_val, wrapped_ele,
+                            PathSearchKeywords.DISTINCT, yaml_path)
 
                 elif scan_node in data:
                     # The user probably meant to operate against the parent
@@ -1020,16 +1054,17 @@ class KeywordSearches:
                     if isinstance(ele, NodeCoords) else NodeCoords(
                         ele, data, idx, next_path, next_ancestry,
                         relay_segment))
-                if eval_val in seen_values:
-                    seen_values[eval_val].append(wrapped_ele)
-                else:
-                    seen_values[eval_val] = [wrapped_ele]
+                KeywordSearches._group_by_value(
+                    seen_values, eval_val, wrapped_ele,
+                    PathSearchKeywords.DISTINCT, yaml_path)
 
         else:
             # Non-complex data is always unique
-            seen_values[data] = [NodeCoords(
-                data, parent, parentref, translated_path, ancestry,
-                relay_segment)]
+            KeywordSearches._group_by_value(
+                seen_values, data, NodeCoords(
+                    data, parent, parentref, translated_path, ancestry,
+                    relay_segment),
+                PathSearchKeywords.DISTINCT, yaml_path)
 
         # Yield the first of every match
         for nodes in seen_values.values():
@@ -1105,10 +1140,9 @@ class KeywordSearches:
                     if isinstance(raw_ele, NodeCoords) else raw_ele)
                 if eval_ele is not None and scan_node in eval_ele:
                     eval_val = eval_ele[scan_node]
-                    if eval_val in seen_values:
-                        seen_values[eval_val].append(wrapped_ele)
-                    else:
-                        seen_values[eval_val] = [wrapped_ele]
+                    KeywordSearches._group_by_value(
+                        seen_values, eval_val, wrapped_ele,
+                        PathSearchKeywords.UNIQUE, yaml_path)
 
         elif isinstance(data, dict):
             # A named child node is mandatory
@@ -1129,10 +1163,9 @@ class KeywordSearches:
                             val, data, key, next_path, next_ancestry,
                             relay_segment)
                         eval_val = val[scan_node]
-                        if eval_val in seen_values:
-                            seen_values[eval_val].append(wrapped_ele)
-                        else:
-                            seen_values[eval_val] = [wrapped_ele]
+                        KeywordSearches._group_by_value(
+                            seen_values, eval_val, wrapped_ele,
+                            PathSearchKeywords.UNIQUE, yaml_path)
 
                 elif scan_node in data:
                     # The user probably meant to operate against the parent
@@ -1162,16 +1195,17 @@ class KeywordSearches:
                     if isinstance(ele, NodeCoords) else NodeCoords(
                         ele, data, idx, next_path, next_ancestry,
                         relay_segment))
-                if eval_val in seen_values:
-                    seen_values[eval_val].append(wrapped_ele)
-                else:
-                    seen_values[eval_val] = [wrapped_ele]
+                KeywordSearches._group_by_value(
+                    seen_values, eval_val, wrapped_ele,
+                    PathSearchKeywords.UNIQUE, yaml_path)
 
         else:
             # Non-complex data is always unique
-            seen_values[data] = [NodeCoords(
-                data, parent, parentref, translated_path, ancestry,
-                relay_segment)]
+            KeywordSearches._group_by_value(
+                seen_values, data, NodeCoords(
+                    data, parent, parentref, translated_path, ancestry,
+                    relay_segment),
+                PathSearchKeywords.UNIQUE, yaml_path)
 
         # Yield the non/unique matches
         if invert:
